@@ -6,6 +6,7 @@ import ast
 import z3
 
 from .values import (
+    forall,
     ANY, BOOL, FUNC, INT, NONE, STR, XINT, LIST, SET, TUPLE, Ty, Val, VNONE,
     fresh, from_int, to_int, vbool, vint, vlist, vxint, I, B,
 )
@@ -32,7 +33,7 @@ class Quant:
     def forall(self, body, patterns=None):
         if not self.vars:
             return z3.Implies(self.guard_term(), body)
-        return z3.ForAll(self.vars, z3.Implies(self.guard_term(), body))
+        return forall(self.vars, z3.Implies(self.guard_term(), body))
 
     def exists(self, body):
         if not self.vars:
@@ -103,16 +104,18 @@ def list_comprehension(eng, e, st):
             view = eng.as_view(itv, s)
             n = fresh("ncomp")
             s.assume(n == z3.If(view.n > 0, view.n, 0))
-            outer = eng.alloc_ref(s)
+            region = eng.alloc_region
+            outer = eng.new_list(s, LIST(ANY, region))
             base = s.heap.alloc
             s.heap = s.heap.with_alloc(base + n)
             h = s.heap.set_len(outer, n)
             s.heap = h
             qv = fresh("lq")
-            s.assume(z3.ForAll([qv], z3.Implies(z3.And(qv >= 0, qv < n),
-                                                z3.And(h.at(outer, qv) == base + qv, h.len(base + qv) == 0)),
+            s.assume(forall([qv], z3.Implies(z3.And(qv >= 0, qv < n),
+                                                z3.And(h.at(outer, qv) == base + qv,
+                                                       h.len((base + qv, region)) == 0)),
                                patterns=[h.at(outer, qv)]))
-            out.append((s, vlist(LIST(ANY), outer)))
+            out.append((s, outer))
         return out
     cur, q, raising = eval_generators(eng, e.generators, e.elt, st)
     out = [(r, None) for r in raising]
@@ -123,14 +126,14 @@ def list_comprehension(eng, e, st):
     v = q.vars[0]
     view = q.views[0]
     elem = q.elem
-    r = eng.alloc_ref(cur)
+    r = eng.new_list(cur, elem.ty)
     h = cur.heap
     conds = q.guard[1:]
     elem_int = to_int(elem)
     if not conds:
         h = h.set_len(r, z3.If(view.n > 0, view.n, 0))
         cur.heap = h
-        cur.assume(z3.ForAll([v], z3.Implies(q.guard[0], h.at(r, v) == elem_int), patterns=[h.at(r, v)]))
+        cur.assume(forall([v], z3.Implies(q.guard[0], h.at(r, v) == elem_int), patterns=[h.at(r, v)]))
     else:
         # filter: ghost maps src (result index -> source index, increasing) and inv
         # (source index -> result index) make "exactly the elements satisfying c, in
@@ -146,17 +149,17 @@ def list_comprehension(eng, e, st):
         k2 = fresh("k2")
         n = view.n
         cur.assume(z3.And(ln >= 0, ln <= z3.If(n > 0, n, 0)))
-        cur.assume(z3.ForAll([k], z3.Implies(z3.And(k >= 0, k < ln),
+        cur.assume(forall([k], z3.Implies(z3.And(k >= 0, k < ln),
                                              z3.And(src(k) >= 0, src(k) < n, c_of(src(k)),
                                                     h.at(r, k) == e_of(src(k)), inv(src(k)) == k)),
                              patterns=[src(k)]))
-        cur.assume(z3.ForAll([k, k2], z3.Implies(z3.And(k >= 0, k < k2, k2 < ln), src(k) < src(k2)),
+        cur.assume(forall([k, k2], z3.Implies(z3.And(k >= 0, k < k2, k2 < ln), src(k) < src(k2)),
                              patterns=[z3.MultiPattern(src(k), src(k2))]))
-        cur.assume(z3.ForAll([v], z3.Implies(z3.And(v >= 0, v < n, c_of(v)),
+        cur.assume(forall([v], z3.Implies(z3.And(v >= 0, v < n, c_of(v)),
                                              z3.And(inv(v) >= 0, inv(v) < ln, src(inv(v)) == v)),
                              patterns=[inv(v)]))
         cur.aux["last_filter"] = (src, inv, ln)
-    out.append((cur, vlist(elem.ty, r)))
+    out.append((cur, r))
     return out
 
 
@@ -185,7 +188,7 @@ def b_len(eng, e, st):
             continue
         v = pos[0]
         if v.ty.kind in ("list", "deque"):
-            out.append((s, vint(s.heap.len(v.t))))
+            out.append((s, vint(s.heap.len(v))))
         elif v.ty.kind == "tuple":
             out.append((s, vint(len(v.t))))
         elif isinstance(v.t, __import__("pyvc.engine", fromlist=["IterView"]).IterView):
@@ -318,10 +321,10 @@ def _minmax(is_max):
                     raise _oos("starred non-list")
                 r = fresh("mm")
                 qv = fresh("q")
-                n = s.heap.len(lst.t)
+                n = s.heap.len(lst)
                 rng = z3.And(qv >= 0, qv < n)
-                elq = s.heap.at(lst.t, qv)
-                facts = [z3.ForAll([qv], z3.Implies(rng, r >= elq if is_max else r <= elq))]
+                elq = s.heap.at(lst, qv)
+                facts = [forall([qv], z3.Implies(rng, r >= elq if is_max else r <= elq))]
                 alts = [z3.Exists([qv], z3.And(rng, r == elq))]
                 for fx in fixed:
                     x = eng.num(fx)
@@ -374,10 +377,10 @@ def _minmax(is_max):
                     raise _oos("key of extended integers")
                 a, b = eng.num(kw_), eng.num(kq)
                 rng = z3.And(qv >= 0, qv < view.n)
-                s.assume(z3.ForAll([qv], z3.Implies(rng, a >= b if is_max else a <= b)))
-                s.assume(z3.ForAll([qv], z3.Implies(z3.And(rng, qv < w), a > b if is_max else a < b)))
+                s.assume(forall([qv], z3.Implies(rng, a >= b if is_max else a <= b)))
+                s.assume(forall([qv], z3.Implies(z3.And(rng, qv < w), a > b if is_max else a < b)))
                 for ok, exc, node in side:
-                    okq = z3.ForAll([qv], z3.Implies(rng, ok)) if _mentions(ok, qv) else z3.Implies(view.n > 0, ok)
+                    okq = forall([qv], z3.Implies(rng, ok)) if _mentions(ok, qv) else z3.Implies(view.n > 0, ok)
                     s, bad = eng.split(s, okq, exc if not str(exc).startswith("pre:") else "ContractPrecondition", node)
                     out.extend((b_, None) for b_ in bad)
                     if s is None:
@@ -442,7 +445,7 @@ def b_sum(eng, e, st):
         x = eng.num(q.elem)
         ps = z3.Function(f"psum!{fresh('s')}", I, I)
         cur.assume(ps(0) == 0)
-        cur.assume(z3.ForAll([v], z3.Implies(z3.And(v >= 0, v < n), ps(v + 1) == ps(v) + x), patterns=[ps(v + 1)]))
+        cur.assume(forall([v], z3.Implies(z3.And(v >= 0, v < n), ps(v + 1) == ps(v) + x), patterns=[ps(v + 1)]))
         hook = getattr(eng.cur, "sum_hook", None)
         if hook is not None:
             hook(eng, cur, e, ps, n, v, x)
@@ -457,7 +460,7 @@ def b_sum(eng, e, st):
         x = eng.num(view.get(s.heap, v))
         ps = z3.Function(f"psum!{fresh('s')}", I, I)
         s.assume(ps(0) == 0)
-        s.assume(z3.ForAll([v], z3.Implies(z3.And(v >= 0, v < view.n), ps(v + 1) == ps(v) + x), patterns=[ps(v + 1)]))
+        s.assume(forall([v], z3.Implies(z3.And(v >= 0, v < view.n), ps(v + 1) == ps(v) + x), patterns=[ps(v + 1)]))
         hook = getattr(eng.cur, "sum_hook", None)
         if hook is not None:
             hook(eng, s, e, ps, view.n, v, x)
@@ -555,7 +558,7 @@ def b_set(eng, e, st):
         sarr = fresh("set", z3.ArraySort(I, B))
         x = fresh("x")
         xi = to_int(q.elem)
-        cur.assume(z3.ForAll([x], z3.Select(sarr, x) == q.exists(xi == x), patterns=[z3.Select(sarr, x)]))
+        cur.assume(forall([x], z3.Select(sarr, x) == q.exists(xi == x), patterns=[z3.Select(sarr, x)]))
         out.append((cur, Val(SET(q.elem.ty), sarr)))
         return out
     for s, pos, kw in _args(eng, e, st):
@@ -571,7 +574,7 @@ def b_set(eng, e, st):
         x = fresh("x")
         qv = fresh("q")
         item = to_int(view.get(s.heap, qv))
-        s.assume(z3.ForAll([x], z3.Select(sarr, x) == z3.Exists([qv], z3.And(qv >= 0, qv < view.n, item == x)),
+        s.assume(forall([x], z3.Select(sarr, x) == z3.Exists([qv], z3.And(qv >= 0, qv < view.n, item == x)),
                            patterns=[z3.Select(sarr, x)]))
         ety = v.ty.arg if v.ty.kind == "list" else ANY
         out.append((s, Val(SET(ety), sarr)))
@@ -590,7 +593,7 @@ def b_list(eng, e, st):
         if v.ty.kind == "set":
             # iteration order of a set is unspecified: a duplicate-free list with the
             # same elements (specs compare such results as sets)
-            r = eng.alloc_ref(s)
+            r = eng.new_list(s, v.ty.arg)
             n = fresh("setlen")
             h = s.heap.set_len(r, n)
             s.heap = h
@@ -598,23 +601,24 @@ def b_list(eng, e, st):
             q1, q2 = fresh("q"), fresh("q")
             idx = z3.Function(f"sidx!{n}", I, I)
             s.assume(n >= 0)
-            s.assume(z3.ForAll([q1], z3.Implies(z3.And(q1 >= 0, q1 < n),
+            s.assume(forall([q1], z3.Implies(z3.And(q1 >= 0, q1 < n),
                                                 z3.And(z3.Select(v.t, h.at(r, q1)), idx(h.at(r, q1)) == q1)),
                                patterns=[h.at(r, q1)]))
-            s.assume(z3.ForAll([x], z3.Implies(z3.Select(v.t, x),
+            s.assume(forall([x], z3.Implies(z3.Select(v.t, x),
                                                z3.And(idx(x) >= 0, idx(x) < n, h.at(r, idx(x)) == x)),
                                patterns=[idx(x)]))
-            out.append((s, vlist(v.ty.arg, r)))
+            out.append((s, r))
             continue
         view = eng.as_view(v, s)
-        r = eng.alloc_ref(s)
+        item0 = view.get(s.heap, fresh("q"))
+        r = eng.new_list(s, item0.ty)
         h = s.heap.set_len(r, z3.If(view.n > 0, view.n, 0))
         s.heap = h
         qv = fresh("q")
         item = view.get(h, qv)
-        s.assume(z3.ForAll([qv], z3.Implies(z3.And(qv >= 0, qv < view.n), h.at(r, qv) == to_int(item)),
+        s.assume(forall([qv], z3.Implies(z3.And(qv >= 0, qv < view.n), h.at(r, qv) == to_int(item)),
                            patterns=[h.at(r, qv)]))
-        out.append((s, vlist(item.ty, r)))
+        out.append((s, r))
     return out
 
 
@@ -692,18 +696,19 @@ def _list_method(eng, obj, meth, pos, s, e):
             qv = fresh("q")
             n_arr = fresh("set", z3.ArraySort(I, B))
             item = to_int(view.get(s.heap, qv))
-            s.assume(z3.ForAll([x], z3.Select(n_arr, x) == z3.Or(z3.Select(obj.t, x),
+            s.assume(forall([x], z3.Select(n_arr, x) == z3.Or(z3.Select(obj.t, x),
                                                                   z3.Exists([qv], z3.And(qv >= 0, qv < view.n, item == x))),
                                patterns=[z3.Select(n_arr, x)]))
             _set_update(s, e, obj, n_arr, eng)
             return [(s, VNONE)]
         raise _oos(f"set method {meth}")
     h = s.heap
-    l = obj.t
+    l = obj
     n = h.len(l)
     if meth == "append":
         _check_borrowed(eng, obj, s, e)
         v = pos[0]
+        eng.check_region(obj, v, e)
         h2 = h.set_at(l, n, to_int(v), v.aux if v.ty.kind == "xint" else None).set_len(l, n + 1)
         s.heap = h2
         return [(s, VNONE)]
@@ -737,14 +742,11 @@ def _list_method(eng, obj, meth, pos, s, e):
             out = []
         El = fresh("El_ext", z3.ArraySort(I, I))
         qv = fresh("q")
-        h2 = h.copy()
-        h2.Len = z3.Store(h.Len, l, n + m)
-        h2.El = z3.Store(h.El, l, El)
-        s.heap = h2
-        old = z3.Select(h.El, l)
-        s.assume(z3.ForAll([qv], z3.Implies(z3.And(qv >= 0, qv < n), z3.Select(El, qv) == z3.Select(old, qv)),
+        old = h.elarr(l)
+        s.heap = h.set_len(l, n + m).set_elarr(l, El)
+        s.assume(forall([qv], z3.Implies(z3.And(qv >= 0, qv < n), z3.Select(El, qv) == z3.Select(old, qv)),
                            patterns=[z3.Select(El, qv)]))
-        s.assume(z3.ForAll([qv], z3.Implies(z3.And(qv >= 0, qv < m), z3.Select(El, n + qv) == getter(qv)),
+        s.assume(forall([qv], z3.Implies(z3.And(qv >= 0, qv < m), z3.Select(El, n + qv) == getter(qv)),
                            patterns=[z3.Select(El, n + qv)]))
         out.append((s, VNONE))
         return out
@@ -766,12 +768,9 @@ def _list_method(eng, obj, meth, pos, s, e):
             v = from_int(obj.ty.arg, hh.at(l, 0))
             El = fresh("El_pl", z3.ArraySort(I, I))
             qv = fresh("q")
-            old = z3.Select(hh.El, l)
-            h2 = hh.copy()
-            h2.Len = z3.Store(hh.Len, l, n - 1)
-            h2.El = z3.Store(hh.El, l, El)
-            okst.heap = h2
-            okst.assume(z3.ForAll([qv], z3.Implies(z3.And(qv >= 0, qv < n - 1),
+            old = hh.elarr(l)
+            okst.heap = hh.set_len(l, n - 1).set_elarr(l, El)
+            okst.assume(forall([qv], z3.Implies(z3.And(qv >= 0, qv < n - 1),
                                                    z3.Select(El, qv) == z3.Select(old, qv + 1)),
                                   patterns=[z3.Select(El, qv)]))
             out.append((okst, v))
@@ -786,15 +785,12 @@ def _list_method(eng, obj, meth, pos, s, e):
         out = [(b, None) for b in bad]
         if okst is not None:
             hh = okst.heap
-            old = z3.Select(hh.El, l)
+            old = hh.elarr(l)
             okst.assume(z3.And(w >= 0, w < n, z3.Select(old, w) == x))
-            okst.assume(z3.ForAll([qv], z3.Implies(z3.And(qv >= 0, qv < w), z3.Select(old, qv) != x)))
+            okst.assume(forall([qv], z3.Implies(z3.And(qv >= 0, qv < w), z3.Select(old, qv) != x)))
             El = fresh("El_rm", z3.ArraySort(I, I))
-            h2 = hh.copy()
-            h2.Len = z3.Store(hh.Len, l, n - 1)
-            h2.El = z3.Store(hh.El, l, El)
-            okst.heap = h2
-            okst.assume(z3.ForAll([qv], z3.Implies(z3.And(qv >= 0, qv < n - 1),
+            okst.heap = hh.set_len(l, n - 1).set_elarr(l, El)
+            okst.assume(forall([qv], z3.Implies(z3.And(qv >= 0, qv < n - 1),
                                                    z3.Select(El, qv) == z3.If(qv < w, z3.Select(old, qv),
                                                                               z3.Select(old, qv + 1))),
                                   patterns=[z3.Select(El, qv)]))
@@ -802,15 +798,10 @@ def _list_method(eng, obj, meth, pos, s, e):
             out.append((okst, VNONE))
         return out
     if meth == "copy":
-        view = eng.as_view(obj, s)
-        r = eng.alloc_ref(s)
+        r = eng.new_list(s, obj.ty.arg)
         hh = s.heap
-        h2 = hh.copy()
-        h2.Len = z3.Store(hh.Len, r, n)
-        h2.El = z3.Store(hh.El, r, z3.Select(hh.El, l))
-        h2.ElX = z3.Store(hh.ElX, r, z3.Select(hh.ElX, l))
-        s.heap = h2
-        return [(s, vlist(obj.ty.arg, r))]
+        s.heap = hh.set_len(r, n).set_elarr(r, hh.elarr(l), hh.elxarr(l))
+        return [(s, r)]
     if meth == "index":
         x = to_int(pos[0])
         qv = fresh("q")
@@ -820,7 +811,7 @@ def _list_method(eng, obj, meth, pos, s, e):
         if okst is not None:
             w = fresh("ix")
             okst.assume(z3.And(w >= 0, w < n, h.at(l, w) == x))
-            okst.assume(z3.ForAll([qv], z3.Implies(z3.And(qv >= 0, qv < w), h.at(l, qv) != x)))
+            okst.assume(forall([qv], z3.Implies(z3.And(qv >= 0, qv < w), h.at(l, qv) != x)))
             out.append((okst, vint(w)))
         return out
     raise _oos(f"list method {meth}")
